@@ -33,7 +33,9 @@ func (k Keeper) SlashAndResetMissCounters(ctx sdk.Context) {
 		// Penalize the validator whose the valid vote rate is smaller than min threshold
 		if validVoteRate.LT(minValidPerWindow) {
 			validator := k.StakingKeeper.Validator(ctx, operator)
-			if validator.IsBonded() && !validator.IsJailed() {
+			// The validator may have been removed from the staking state since
+			// the miss was counted.
+			if validator != nil && validator.IsBonded() && !validator.IsJailed() {
 				consAddr, err := validator.GetConsAddr()
 				if err != nil {
 					k.Logger(ctx).Error("fail to get consensus address", "validator", validator.GetOperator().String())
